@@ -227,11 +227,11 @@ theorem inv_step (op : Op) (s : Store) (h : Inv s) (hwf : op.WF = true) : Inv (s
   | addNode g nid label props => exact inv_addNode s g nid label props h
   | deleteNode g nid => exact inv_deleteNode s g nid h
   | addLink g a rel b props => exact inv_addLink s g a rel b props h
-  | updateNodeProperty g nid k v => exact inv_updateNodeProperty s g nid k v h
+  | updateNodeProperty g nid k v => exact assertVal_pred Inv v s _ h (inv_updateNodeProperty s g nid k v h)
   | unsetNodeProperty g nid k => exact inv_unsetNodeProperty s g nid k h
-  | updateNodesProperty g k v => exact inv_updateNodesProperty s g k v h
+  | updateNodesProperty g k v => exact assertVal_pred Inv v s _ h (inv_updateNodesProperty s g k v h)
   | updateNodeProperties g nid props => exact inv_updateNodeProperties s g nid props h
-  | updateLinkProperty g a b kind k v => exact inv_updateLinkProperty s g a b kind k v h
+  | updateLinkProperty g a b kind k v => exact assertVal_pred Inv v s _ h (inv_updateLinkProperty s g a b kind k v h)
   | unsetLinkProperty g a b kind k => exact inv_unsetLinkProperty s g a b kind k h
   | updateLinkProperties g a b kind props => exact inv_updateLinkProperties s g a b kind props h
   | deleteGraph g => exact inv_delGraphNl s g h
